@@ -1,0 +1,188 @@
+//go:build verif
+
+package main
+
+import (
+	"bytes"
+	"fmt"
+	"mltwist/internal/state/memory"
+	"mltwist/pkg/expr"
+	"mltwist/pkg/model"
+	"strings"
+)
+
+// Byte memory histories (property C15), one history per line:
+//
+//	bytes <k> <begin1> <hex1> ... <begink> <hexk> <n> op1 ... opn
+//
+// with the operations
+//
+//	st <addr> <w> <expr>     Store (identical "c:<hex>" tokens denote the SAME expr.Const object)
+//	ld <addr> <w>            Load
+//	ms <addr> <w>            Missing
+//	bl                       Blocks
+//
+// The result is "err:overlap" if NewBytes fails, otherwise the answers of all
+// operations joined by " | " followed by one aliasing field: every byte slice
+// and constant handed to the memory or received from it is deep-copied at
+// hand-over time (initial blocks before NewBytes, a constant at every Store
+// it is passed to, a loaded constant when Load returns it) and compared with
+// that copy at the end of the history ("alias:ok" or "alias:changed <number
+// of hand-overs whose object differs from its copy>").
+
+type vBlock struct {
+	begin model.Addr
+	bs    []byte
+}
+
+func (b vBlock) Begin() model.Addr { return b.begin }
+func (b vBlock) Bytes() []byte     { return b.bs }
+
+// aliasMonitor remembers byte slices together with a deep copy.
+type aliasMonitor struct {
+	live   [][]byte
+	copies [][]byte
+}
+
+func (m *aliasMonitor) watch(bs []byte) {
+	m.live = append(m.live, bs)
+	m.copies = append(m.copies, append([]byte(nil), bs...))
+}
+
+func (m *aliasMonitor) changed() int {
+	n := 0
+	for i := range m.live {
+		if !bytes.Equal(m.live[i], m.copies[i]) {
+			n++
+		}
+	}
+	return n
+}
+
+func fmtAddrIntervals(m interface {
+	Len() int
+}, get func(i int) (uint64, uint64)) string {
+	var sb strings.Builder
+	fmt.Fprintf(&sb, "%d", m.Len())
+	for i := 0; i < m.Len(); i++ {
+		b, e := get(i)
+		fmt.Fprintf(&sb, " %d %d", b, e)
+	}
+	return sb.String()
+}
+
+// protect runs f and maps a panic to "PANIC".
+func protect(f func() string) (res string) {
+	defer func() {
+		if r := recover(); r != nil {
+			if pe, ok := r.(parseError); ok {
+				panic(pe)
+			}
+			res = "PANIC"
+		}
+	}()
+	return f()
+}
+
+func opBytes(t *tokens) string {
+	var mon aliasMonitor
+
+	k := t.int()
+	blocks := make([]memory.ByteBlock, 0, k)
+	for i := 0; i < k; i++ {
+		begin := model.Addr(t.uint())
+		bs := t.hex()
+		mon.watch(bs)
+		blocks = append(blocks, vBlock{begin: begin, bs: bs})
+	}
+
+	// Parse the whole history first so that a malformed line never executes
+	// partially.
+	type op struct {
+		kind string
+		addr model.Addr
+		w    expr.Width
+		ex   expr.Expr
+	}
+	consts := map[string]expr.Const{}
+	n := t.int()
+	ops := make([]op, 0, n)
+	for i := 0; i < n; i++ {
+		o := op{kind: t.next()}
+		switch o.kind {
+		case "st":
+			o.addr = model.Addr(t.uint())
+			o.w = t.width()
+			if t.pos < len(t.toks) && strings.HasPrefix(t.toks[t.pos], "c:") {
+				tok := t.toks[t.pos]
+				c, ok := consts[tok]
+				if !ok {
+					c = t.expr().(expr.Const)
+					consts[tok] = c
+				} else {
+					t.next()
+				}
+				o.ex = c
+			} else {
+				o.ex = t.expr()
+			}
+		case "ld", "ms":
+			o.addr = model.Addr(t.uint())
+			o.w = t.width()
+		case "bl":
+		default:
+			panic(parseError("bad bytes op " + o.kind))
+		}
+		ops = append(ops, o)
+	}
+
+	mem, err := memory.NewBytes(blocks)
+	if err != nil {
+		return "err:overlap"
+	}
+
+	out := make([]string, 0, len(ops)+1)
+	for _, o := range ops {
+		o := o
+		out = append(out, protect(func() string {
+			switch o.kind {
+			case "st":
+				if c, isConst := o.ex.(expr.Const); isConst {
+					mon.watch(c.Bytes())
+				}
+				mem.Store(o.addr, o.ex, o.w)
+				return "ok"
+			case "ld":
+				ex, ok := mem.Load(o.addr, o.w)
+				if !ok {
+					return "none"
+				}
+				if c, isConst := ex.(expr.Const); isConst {
+					mon.watch(c.Bytes())
+				}
+				return "some " + fmtExpr(ex)
+			case "ms":
+				m := mem.Missing(o.addr, o.w)
+				return fmtAddrIntervals(m, func(i int) (uint64, uint64) {
+					return uint64(m.Index(i).Begin()), uint64(m.Index(i).End())
+				})
+			default:
+				m := mem.Blocks()
+				return fmtAddrIntervals(m, func(i int) (uint64, uint64) {
+					return uint64(m.Index(i).Begin()), uint64(m.Index(i).End())
+				})
+			}
+		}))
+	}
+
+	if c := mon.changed(); c > 0 {
+		out = append(out, fmt.Sprintf("alias:changed %d", c))
+	} else {
+		out = append(out, "alias:ok")
+	}
+	return strings.Join(out, " | ")
+}
+
+func init() {
+	register("bytes", opBytes)
+}
